@@ -116,7 +116,7 @@ func directC01lit(g *G, rep *Report) {
 		}
 	}
 	// 4. floats
-	floats := []string{"0.0", "0.5", "1.0", "1.5", "100.0", "3.14159", "0.1", "0.001", "123456789.125", "6.02e23", "5.1e-9", "3e-3", "1e3", "1.0e10", "2.5e-7", "1.7976931348623157e308", "4.9e-324", "0.30000000000000004", "9007199254740993.0"}
+	floats := []string{"1.5e+3", "2e+2", "4e+0", "1.0e+10", "6.02e+23", "1e+6", "0.0", "0.5", "1.0", "1.5", "100.0", "3.14159", "0.1", "0.001", "123456789.125", "6.02e23", "5.1e-9", "3e-3", "1e3", "1.0e10", "2.5e-7", "1.7976931348623157e308", "4.9e-324", "0.30000000000000004", "9007199254740993.0"}
 	for i := 0; i < 300; i++ {
 		f := math.Float64frombits(r.U64())
 		if math.IsNaN(f) || math.IsInf(f, 0) || f < 0 {
@@ -126,6 +126,7 @@ func directC01lit(g *G, rep *Report) {
 		if !strings.Contains(s, ".") {
 			s = strings.Replace(s, "e", ".0e", 1)
 		}
+		floats = append(floats, s) // with the explicit '+' of the exponent
 		s = strings.Replace(s, "e+", "e", 1)
 		floats = append(floats, s)
 		if f > 1e-5 && f < 1e15 {
